@@ -154,12 +154,12 @@ theorem eventcond_none_is_harmless (c : Circ) (fuel : Nat) (s : St) (d : Nat) (b
 theorem unknown_event_is_harmless (c : Circ) (fuel : Nat) (s : St) (d : Nat) (b : Blk) (et : EType)
     (data : Data) (hb : c.blocks[d]? = some b) (ht : et.check = Option.none)
     (ha : s.active d = false) (hi : s.init d ≠ .pending)
-    (hn : et.resolve (dataTruthy data) ≠ .none) (hk : b.kind ≠ .fsm)
+    (hn : et.resolve (dataTruthy data) ≠ .none) (hk : b.kind ≠ .fsm) (hk2 : b.kind ≠ .repeat)
     (hl : lookupHandler b.kind (et.resolve (dataTruthy data)) = Option.none) :
     deliver c (fuel + 1) s d et data = (s, .exc .unknownEvent) := by
   unfold deliver
   simp only [hb, ht, ha, Bool.false_eq_true, if_false, eventBody, hn, earlyInit, hi, andThen,
-    callHandler, hl, hk]
+    callHandler, hl, hk, hk2]
   rw [state_restored s d ha]
 
 /-- an event with wrong parameters (the call of the handler does not bind): TypeError for the
@@ -168,13 +168,13 @@ theorem parameter_error_is_harmless (c : Circ) (fuel : Nat) (s : St) (d : Nat) (
     (data : Data) (h : String × List String × List String × Bool)
     (hb : c.blocks[d]? = some b) (ht : et.check = Option.none)
     (ha : s.active d = false) (hi : s.init d ≠ .pending)
-    (hn : et.resolve (dataTruthy data) ≠ .none) (hk : b.kind ≠ .fsm)
+    (hn : et.resolve (dataTruthy data) ≠ .none) (hk : b.kind ≠ .fsm) (hk2 : b.kind ≠ .repeat)
     (hl : lookupHandler b.kind (et.resolve (dataTruthy data)) = some h)
     (hp : paramsOk h data = false) :
     deliver c (fuel + 1) s d et data = (s, .exc .typeError) := by
   unfold deliver
   simp only [hb, ht, ha, Bool.false_eq_true, if_false, eventBody, hn, earlyInit, hi, andThen,
-    callHandler, hl, hp, Bool.not_false, if_true, hk]
+    callHandler, hl, hp, Bool.not_false, if_true, hk, hk2]
   rw [state_restored s d ha]
 
 /-- a malformed event type is rejected before the guard is touched – even by a busy block -/
@@ -188,7 +188,7 @@ theorem malformed_type_is_harmless (c : Circ) (fuel : Nat) (s : St) (d : Nat) (b
     in particular the outcomes above neither lock a block nor stop the simulation -/
 theorem harmless_outcomes_do_not_abort (c : Circ) (fuel : Nat) (s : St) (d : Nat) (b : Blk)
     (et : EType) (data : Data) (hb : c.blocks[d]? = some b) (ha : s.active d = false)
-    (hi : s.init d ≠ .pending) (hk : b.kind ≠ .fsm)
+    (hi : s.init d ≠ .pending) (hk : b.kind ≠ .fsm) (hk2 : b.kind ≠ .repeat)
     (hcase : et.check.isSome ∨ (et.check = Option.none ∧ (et.resolve (dataTruthy data) = .none ∨
       (et.resolve (dataTruthy data) ≠ .none ∧
         (lookupHandler b.kind (et.resolve (dataTruthy data)) = Option.none ∨
@@ -198,8 +198,8 @@ theorem harmless_outcomes_do_not_abort (c : Circ) (fuel : Nat) (s : St) (d : Nat
   · obtain ⟨x, hx⟩ := Option.isSome_iff_exists.1 h
     rw [malformed_type_is_harmless c fuel s d b et data x hb hx]
   · rw [eventcond_none_is_harmless c fuel s d b et data hb ht ha h]
-  · rw [unknown_event_is_harmless c fuel s d b et data hb ht ha hi hn hk h]
-  · rw [parameter_error_is_harmless c fuel s d b et data h hb ht ha hi hn hk hl hp]
+  · rw [unknown_event_is_harmless c fuel s d b et data hb ht ha hi hn hk hk2 h]
+  · rw [parameter_error_is_harmless c fuel s d b et data h hb ht ha hi hn hk hk2 hl hp]
 
 /-! ### FSM blocks: the documented window and the timer -/
 
@@ -650,6 +650,7 @@ theorem translated_handlers_event_consults_built_table (k : Dispatch.BKind) (mro
     simp only [Dispatch.lookupHandler, Dispatch.handlersOf, contains_keys, find_isSome_contains, hO]
   | probe => simp [mroOfKind] at hk
   | fsm => simp [mroOfKind] at hk
+  | «repeat» => simp [mroOfKind] at hk
 
 /-- non-vacuity: `Sub(AddonX, Input)` – the subclass overrides `_event_put`, the add-on contributes
     `_event_x`, `helper` is no handler; the same classes with the add-on after the SBlock side are refused -/
